@@ -190,8 +190,48 @@ func (c *Check) addFinding(f *Finding) {
 // Explore runs one job and feeds the generic bookkeeping; extra is called for
 // every finished path (may be nil).
 func (c *Check) Explore(job *interp.Job, extra func(pr *interp.PathResult)) interp.Stats {
-	c.Jobs++
-	st := c.R.Eng.Explore(job, func(pr *interp.PathResult) {
+	return c.ExploreAll([]*interp.Job{job}, extra)
+}
+
+// JobNeed: Cover points at least one path of the job must reach (vacuity guard).
+type JobNeed struct {
+	Job   *interp.Job
+	Cover []string
+}
+
+// ExploreNeeds explores all jobs on one worker pool and checks each job's
+// reachability witnesses.
+func (c *Check) ExploreNeeds(needs []JobNeed, extra func(pr *interp.PathResult)) interp.Stats {
+	seen := map[*interp.Job]map[string]bool{}
+	var jobs []*interp.Job
+	for _, n := range needs {
+		jobs = append(jobs, n.Job)
+		seen[n.Job] = map[string]bool{}
+	}
+	st := c.ExploreAll(jobs, func(pr *interp.PathResult) {
+		for _, cv := range pr.Covers {
+			seen[pr.Job][cv] = true
+		}
+		if extra != nil {
+			extra(pr)
+		}
+	})
+	for _, n := range needs {
+		for _, cv := range n.Cover {
+			if !seen[n.Job][cv] {
+				c.Vacuous = append(c.Vacuous, fmt.Sprintf("%s %v: no path reaches %q", n.Job.Entry, n.Job.Params, cv))
+			}
+		}
+	}
+	return st
+}
+
+// ExploreAll explores the jobs on one shared worker pool.
+func (c *Check) ExploreAll(jobs []*interp.Job, extra func(pr *interp.PathResult)) interp.Stats {
+	c.Jobs += len(jobs)
+	st := c.R.Eng.ExploreMany(jobs, func(pr *interp.PathResult) {
+		job := pr.Job
+		c.JobTags[job.Tag]++
 		in := obsValue(pr.Obs, "in")
 		switch pr.Outcome {
 		case interp.OutEngineError:
@@ -255,7 +295,6 @@ func (c *Check) Explore(job *interp.Job, extra func(pr *interp.PathResult)) inte
 		}
 	})
 	c.mergeStats(st)
-	c.JobTags[job.Tag] += st.Paths
 	return st
 }
 
